@@ -174,6 +174,14 @@ func (r *vfRun) violation(fp, desc string, c any) {
 	}
 }
 
+func (r *vfRun) totalViolations() int {
+	n := 0
+	for _, c := range r.vfps {
+		n += c
+	}
+	return n
+}
+
 func (r *vfRun) harnessError(format string, a ...any) {
 	if r.res.HarnessError == "" {
 		r.res.HarnessError = fmt.Sprintf(format, a...)
